@@ -63,6 +63,11 @@ pub enum Op {
 pub struct Seeded {
   /// how many periods before the start period (>= 1); ignored for granularity "never"
   pub periods_back: u16,
+  /// the file is dated that many periods *after* the start period instead (left by a run whose
+  /// clock was ahead: "restarts over an existing directory" does not say the directory was
+  /// written with a clock behind ours)
+  #[serde(default)]
+  pub ahead: bool,
   pub seq: u8,
   pub compressed: bool,
   pub records: u8,
@@ -104,7 +109,7 @@ fn op() -> impl Strategy<Value = Op> {
 }
 
 pub fn strategy(max_ops: usize) -> impl Strategy<Value = RollerCase> {
-  let seeded = (1u16..6, 1u8..4, any::<bool>(), 0u8..4).prop_map(|(periods_back, seq, compressed, records)| Seeded { periods_back, seq, compressed, records });
+  let seeded = (1u16..6, prop::bool::weighted(0.3), 1u8..4, any::<bool>(), 0u8..4).prop_map(|(periods_back, ahead, seq, compressed, records)| Seeded { periods_back, ahead, seq, compressed, records });
   (
     (any::<u16>(), any::<u16>(), 0u8..4, prop::option::weighted(0.7, any::<u16>()), prop::option::weighted(0.6, 0u8..5), prop::option::weighted(0.5, (any::<u16>(), 0u8..3))),
     0u32..260_000,
@@ -196,6 +201,20 @@ pub fn read_dir_state(dir: &Path, n: &Naming) -> Result<DirState, String> {
   }
   st.rolled.sort_by(|a, b| (a.period, a.seq, a.compressed).cmp(&(b.period, b.seq, b.compressed)));
   Ok(st)
+}
+
+/// Names only (no content): rolled files by base name -> period.  Used to label what the
+/// directory looked like when a roll happened (report classes only, never the oracle).
+pub fn rolled_names(dir: &Path, n: &Naming) -> BTreeMap<String, NaiveDateTime> {
+  let mut out = BTreeMap::new();
+  if let Ok(rd) = std::fs::read_dir(dir) {
+    for e in rd.filter_map(|e| e.ok()) {
+      if let Some((base, period, _, _)) = parse_rolled_name(&e.file_name().to_string_lossy(), n) {
+        out.insert(base, period);
+      }
+    }
+  }
+  out
 }
 
 // ---------------------------------------------------------------------------------------------
@@ -472,7 +491,13 @@ fn execute_in(c: &RollerCase, dir: &Path) -> Result<CaseReport, Failure> {
   // rolled files of older periods (named the way this policy names them), oldest first
   let mut seeds: BTreeMap<(NaiveDateTime, u32), (bool, u8)> = BTreeMap::new();
   for s in &c.seeded {
-    let period = if gran == "never" { DateTime::<Utc>::UNIX_EPOCH } else { period_start(now, &gran) - period_len(&gran) * (s.periods_back as i32) };
+    let period = if gran == "never" {
+      DateTime::<Utc>::UNIX_EPOCH
+    } else if s.ahead {
+      period_start(now, &gran) + period_len(&gran) * (s.periods_back as i32)
+    } else {
+      period_start(now, &gran) - period_len(&gran) * (s.periods_back as i32)
+    };
     seeds.entry((period.naive_utc(), s.seq as u32)).or_insert((s.compressed, s.records));
   }
   let mut seeded_rolled = 0;
@@ -515,6 +540,9 @@ fn execute_in(c: &RollerCase, dir: &Path) -> Result<CaseReport, Failure> {
   run.checkpoint(true)?;
 
   let mut writes = 0u32;
+  // what the directory held when a roll happened, relative to the clock (labels for the report)
+  let mut names_before = rolled_names(dir, &naming);
+  let (mut roll_behind_newest_of_many, mut roll_behind_all, mut roll_over_two_plus) = (0u32, 0u32, 0u32);
   let mut periods_crossed = 0u32;
   let mut restarts_over_rolled = 0u32;
   for op in &c.ops {
@@ -548,6 +576,24 @@ fn execute_in(c: &RollerCase, dir: &Path) -> Result<CaseReport, Failure> {
         if !errs.is_empty() {
           return Err(run.fail("maintenance_error", format!("roller reported: {errs:?}")));
         }
+        let names_after = rolled_names(dir, &naming);
+        if names_after.keys().any(|k| !names_before.contains_key(k)) {
+          // this write rolled
+          let cur = period_start(now, &gran).naive_utc();
+          let oldest = names_before.values().min().copied();
+          let newest = names_before.values().max().copied();
+          if names_before.len() >= 2 {
+            roll_over_two_plus += 1;
+            if gran != "never" && newest.map_or(false, |p| p > cur) {
+              if oldest.map_or(false, |p| p <= cur) {
+                roll_behind_newest_of_many += 1;
+              } else {
+                roll_behind_all += 1;
+              }
+            }
+          }
+        }
+        names_before = names_after;
       }
       Op::Clock(s) => {
         let before = period_start(now, &gran);
@@ -581,6 +627,7 @@ fn execute_in(c: &RollerCase, dir: &Path) -> Result<CaseReport, Failure> {
         run.had_restart = true;
         roller = open(now, &run)?;
         run.checkpoint(true)?;
+        names_before = rolled_names(dir, &naming);
       }
     }
   }
@@ -623,6 +670,24 @@ fn execute_in(c: &RollerCase, dir: &Path) -> Result<CaseReport, Failure> {
   }
   if rolled_made == 0 {
     rep.class("roller/no_roll");
+  }
+  if gran != "never" && c.seeded.iter().any(|s| s.ahead) {
+    rep.class("roller/existing_rolled_files_dated_ahead");
+    if c.seeded.iter().any(|s| !s.ahead) {
+      rep.class("roller/existing_rolled_files_dated_before_and_after_now");
+    }
+  }
+  if roll_over_two_plus > 0 {
+    rep.class("roller/roll_over_2plus_rolled_files");
+  }
+  if roll_behind_newest_of_many > 0 {
+    rep.class("roller/roll_with_clock_between_oldest_and_newest_rolled_file");
+    if c.retain.is_some() {
+      rep.class("roller/roll_with_clock_between_oldest_and_newest_rolled_file/retention");
+    }
+  }
+  if roll_behind_all > 0 {
+    rep.class("roller/roll_with_clock_behind_every_rolled_file");
   }
   // non-triviality (C20 / roller): ">= 1 size roll and >= 1 time roll in one history, or a
   // restart over existing rolled files" (a start over a seeded directory is such a restart)
